@@ -2,8 +2,6 @@
    program's undefined behaviour is observed by the sanitizer builds of the correspondence). *)
 From PS Require Import Base GFDefs PackDefs StrDefs LangDefs ApiDefs SpecDefs SpecApi GFProofs PackProofs StrProofs ApiLemmas
   RefineProofs FrameProofs SafetyProofs.
-From PS Require Import CTieLang CTieStr.
-From PS.Gen Require CFuns.
 From PS.Gen Require Import Consts Langs.
 Local Open Scope N_scope.
 
